@@ -392,7 +392,7 @@ class Flags(Packer):
         """
         number, = unpack_from(self.format, data, offset)
         unpack_list.append(list(filter(None, [number & (2 ** i) for i in range(self.size * 8)])))
-        return self.size
+        return offset + self.size
 
 
 class CellPayload:
